@@ -402,8 +402,11 @@ pub fn build_world(geo: &mut Box<dyn Geo>, rng: &mut Xo, ext: f64, family: &'sta
     let any = |_: &St| true;
     let open = |geo: &mut Box<dyn Geo>, rng: &mut Xo, fam: &'static str| -> WorldBuild {
         geo.set_worlds(&[WorldSpec::default()]);
-        let start = geo.sample(rng).expect("bounded space");
-        let target = geo.sample(rng).expect("bounded space");
+        // (the library's own sampler places start and goal; should it refuse on a bounded space
+        // — which is for the planner runs to bring to light, not for the generator to die of —
+        // the middle of the bounds stands in)
+        let start = geo.sample(rng).unwrap_or_else(|| crate::spaces::centre_state(geo.spec()));
+        let target = geo.sample(rng).unwrap_or_else(|| crate::spaces::centre_state(geo.spec()));
         WorldBuild {
             world: WorldSpec::default(),
             start,
